@@ -1,15 +1,15 @@
 #!/bin/bash
 # usage: seedtest.sh C07 [tier]   -- verify a seeded change produced in /tmp/seed/<ID> and run the property's check against it
-ID=$1; TIER=${2:-quick}; D=/tmp/seed/$ID; OUT=/tmp/seed/$ID.report; : > $OUT
+ID=$1; TIER=${2:-quick}; SR=${SEEDROOT:-/tmp/seed}; D=$SR/$ID; OUT=$SR/$ID.report; : > $OUT
 cd $D || exit 2
 echo "== patch" >> $OUT; git -C $D diff --stat -- src >> $OUT 2>&1; wc -l seed.patch >> $OUT
-echo "== demo WITH patch" >> $OUT; (bash demo_cmd.txt > /tmp/seed/$ID.demo_with.log 2>&1; echo "exit=$?" >> $OUT); tail -3 /tmp/seed/$ID.demo_with.log >> $OUT
-echo "== demo WITHOUT patch" >> $OUT; git -C $D apply -R seed.patch && (bash demo_cmd.txt > /tmp/seed/$ID.demo_without.log 2>&1; echo "exit=$?" >> $OUT); tail -2 /tmp/seed/$ID.demo_without.log >> $OUT; git -C $D apply seed.patch
+echo "== demo WITH patch" >> $OUT; (bash demo_cmd.txt > $SR/$ID.demo_with.log 2>&1; echo "exit=$?" >> $OUT); tail -3 $SR/$ID.demo_with.log >> $OUT
+echo "== demo WITHOUT patch" >> $OUT; git -C $D apply -R seed.patch && (bash demo_cmd.txt > $SR/$ID.demo_without.log 2>&1; echo "exit=$?" >> $OUT); tail -2 $SR/$ID.demo_without.log >> $OUT; git -C $D apply seed.patch
 echo "== existing tests WITH patch (agent's build dir)" >> $OUT
-if [ -d $D/_b ]; then (cd $D/_b && ctest -j8 --timeout 300 > /tmp/seed/$ID.ctest.log 2>&1; echo "passed=$(grep -c ' Passed ' /tmp/seed/$ID.ctest.log) failed=$(grep -cE '\*\*\*(Failed|Exception|Timeout)' /tmp/seed/$ID.ctest.log) notbuilt=$(grep -c 'Not Run' /tmp/seed/$ID.ctest.log)" >> $OUT; grep -E '\*\*\*(Failed|Exception|Timeout)' /tmp/seed/$ID.ctest.log | head -5 >> $OUT); fi
+if [ -d $D/_b ]; then (cd $D/_b && ctest -j8 --timeout 300 > $SR/$ID.ctest.log 2>&1; echo "passed=$(grep -c ' Passed ' $SR/$ID.ctest.log) failed=$(grep -cE '\*\*\*(Failed|Exception|Timeout)' $SR/$ID.ctest.log) notbuilt=$(grep -c 'Not Run' $SR/$ID.ctest.log)" >> $OUT; grep -E '\*\*\*(Failed|Exception|Timeout)' $SR/$ID.ctest.log | head -5 >> $OUT); fi
 echo "== check on /repo with the patch ($TIER)" >> $OUT
 cd /verif; git -C /repo apply $D/seed.patch || { echo "PATCH DOES NOT APPLY TO /repo" >> $OUT; exit 3; }
-( time ./check $ID --tier $TIER ${UNIT:+--unit $UNIT} ) > /tmp/seed/$ID.check.log 2>&1; echo "check exit=$?" >> $OUT
+( time ./check $ID --tier $TIER ${UNIT:+--unit $UNIT} ) > $SR/$ID.check.log 2>&1; echo "check exit=$?" >> $OUT
 git -C /repo checkout -- . ; git -C /repo status --short | head -3 >> $OUT
-grep -E "^VIOLATION|^INCONCLUSIVE|^KNOWN|tier=" /tmp/seed/$ID.check.log | cut -c1-260 | head -12 >> $OUT
+grep -E "^VIOLATION|^INCONCLUSIVE|^KNOWN|tier=" $SR/$ID.check.log | cut -c1-260 | head -12 >> $OUT
 cat $OUT
